@@ -84,6 +84,7 @@ type world struct {
 	hashes            [nPrinc]util.Uint160
 	ids               [3]int32
 	ud                util.Uint160 // hash of the fourth instance (deployable by account 1)
+	wtok              util.Uint160 // the token conduit W (wtoken_test.go)
 	udNEF, udManifest []byte
 	height            uint32 // height of the prepared chain
 }
@@ -108,8 +109,21 @@ func buildWorld(multi bool, pad int) (*world, error) {
 	if err != nil {
 		return nil, err
 	}
-	if _, err := n.AddBlock(dep); err != nil {
-		return nil, fmt.Errorf("deploy UC: %w", err)
+	wc, err := buildW(chainx.Acc(2).ScriptHash(), cw.UB.Hash, cw.UC.Hash)
+	if err != nil {
+		return nil, err
+	}
+	w.wtok = wc.Hash
+	cw.MaxID++
+	depW, err := n.DeployTx(wc, chainx.Signer(2), nil)
+	if err != nil {
+		return nil, err
+	}
+	if _, err := n.AddBlock(dep, depW); err != nil {
+		return nil, fmt.Errorf("deploy UC, W: %w", err)
+	}
+	if err := n.CheckHalt(depW.Hash()); err != nil {
+		return nil, err
 	}
 	// setup block 2: GAS for every instance, NEO for UB, a shared key "a" in every instance
 	s3 := []neotest.Signer{chainx.Signer(3)}
@@ -343,6 +357,8 @@ func (w *world) toU(ops []Op) []any {
 			out = append(out, []any{chainx.OpCall, nativehashes.ContractManagement.BytesBE(), "destroy", 15, []any{}})
 		case 'I':
 			out = append(out, []any{opIter, w.toU(o.Body)})
+		case 'w':
+			out = append(out, []any{chainx.OpCall, w.wtok.BytesBE(), wMethod(o.Src, o.To), 15, []any{w.bind(w.toU(o.Body), o.To)}})
 		case 'r':
 			out = append(out, []any{chainx.OpRun, w.hashes[o.To].BytesBE(), o.Flags, w.bind(w.toU(o.Body), o.To)})
 		case 'T':
@@ -501,10 +517,20 @@ type real struct {
 const sysFee = 3 * gasUnit
 
 func feeFor(ops []Op) int64 {
-	if hasOp(ops, 'Y') {
-		return 25 * gasUnit // deployment costs at least 10 GAS
+	if n := countOp(ops, 'Y'); n > 0 {
+		return int64(10+15*n) * gasUnit // a deployment costs at least 10 GAS, also when it is rolled back
 	}
 	return sysFee
+}
+
+func countOp(ops []Op, k byte) (n int) {
+	for _, o := range ops {
+		if o.K == k {
+			n++
+		}
+		n += countOp(o.Body, k) + countOp(o.H, k) + countOp(o.Fin, k)
+	}
+	return
 }
 
 func (rg *rig) signers(committee bool) []neotest.Signer {
